@@ -28,7 +28,9 @@ ArgToks == {<<"ax">>, <<"bx">>, <<"cx">>, <<"t">>, <<"tt">>, <<"ttt">>, <<"word"
             \* a byte memory operand, a segment register.  (The grammar also takes `byte <label>` / `word <label>` as an
             \* argument and substitutes the bare label name; C13 lists identifier, register, number and bracketed-memory
             \* arguments only, so that form is not judged: DESIGN section 8.)
-            <<"byte", "[", "si", "]">>, <<"es">>}
+            <<"byte", "[", "si", "]">>, <<"es">>,
+            \* bracketed memory operands with a segment override
+            <<"word", "es", "[", "bx", "]">>, <<"byte", "ss", "[", "si", ",", "3", "]">>, <<"word", "cs", "[", "bp", ",", "di", "]">>}
 RegParams == {"r", "rx", "r_", "r1", "r_1"}
 \* macros are named in a fixed order; a body may use the macros defined so far (most uses), itself or the
 \* next one (cycles, forward references) and a macro passed in through parameter k
